@@ -218,9 +218,9 @@ pub fn run(ctx: &Ctx) -> Report {
     let mut rep = Report::new(ID, "fault_enumeration", ctx);
     rep.rule = "Cases: valid caches written from grammar-generated mappings (0..~60 classes). Per cache, enumerated exhaustively: every strict prefix length 0..len-1 and every single-field edit of the 24-byte header (magic in {byte-swapped,0,+1,random}; version in {0,2,2^32-1,random}; each of the four counts in {0,-1,+1,*2,2^31,2^32-1}), plus a grid of foreign headers where magic and version differ together (incl. fully byte-swapped headers), plus foreign buffers (mapping text, zeros, random bytes, random tails behind right/swapped/near-miss magic). Oracle: expected outcome computed from the documented layout (first section that does not fit decides InvalidClasses/InvalidMembers/UnexpectedStringBytes{expected,found}; magic/version rules); a prefix that is accepted must answer the whole universe like the full file. evaluations = parse calls. Non-trivial = distinct (file, fault) where the rejection depends on a section check (prefix >= 24 bytes, count edits).".into();
     rep.assumptions = vec!["buffers are 8-byte aligned (prefixes are sub-slices of an aligned buffer)".into()];
-    let n = ctx.cases(10_000, 150_000);
+    let n = ctx.cases(10_000, 450_000);
     rep.run_stage("ast", || map_case(&cfg()), n, check_case);
-    rep.run_stage("foreign", foreign_case, ctx.cases(20_000, 300_000), |c: &ForeignCase, st: &mut Stats| check_foreign(&crate::engine::unhex(&c.hex), st));
+    rep.run_stage("foreign", foreign_case, ctx.cases(20_000, 900_000), |c: &ForeignCase, st: &mut Stats| check_foreign(&crate::engine::unhex(&c.hex), st));
     rep.stats.exhaustive.push("per generated cache: all strict prefixes, all listed single-field header edits, and a 6x5x2 grid of foreign (magic, version, byte-swapped counts) headers".into());
     rep
 }
